@@ -126,7 +126,7 @@ def explore_rich(ctx, cases, label="oracle-only: "):
             raise core.InfraError(f"harness bug on case {json.dumps(case)[:400]}: {e!r}")
         ctx.case(json.dumps(case, sort_keys=True), sorted(w.tags - c09.TRIVIAL_TAGS))
         seen = set()
-        for p in c09.my_problems(w, C15_KINDS + c09.C09_KINDS):
+        for p in c09.my_problems(w, C15_KINDS):
             prov = c09.prov_key(p["kind"])
             if prov in seen:
                 continue
@@ -140,7 +140,7 @@ def explore_rich(ctx, cases, label="oracle-only: "):
                     w2 = K.run_case(dict(c, rich=True), trace=False)
                 except (K.HarnessBug, core.InfraError):
                     return False
-                return any(c09.prov_key(q["kind"]) == prov for q in w2.problems)
+                return any(c09.prov_key(q["kind"]) == prov for q in c09.my_problems(w2, C15_KINDS))
             small = dict(c09.shrink_case(case, pred), rich=True)
             key = c09.final_key(prov, small)
             provs[prov] = key
